@@ -21,13 +21,39 @@ def word(rng):
 def content_type(name):
     """PEP 566 / core metadata: the type follows the file suffix (.rst, .md/.markdown, anything else plain)"""
     return "text/x-rst" if name.endswith(".rst") else "text/markdown" if name.endswith((".md", ".markdown")) else "text/plain"
+# interpreter ranges that only the legacy table can express ('^', '~', '||'): Requires-Python must admit exactly the same interpreters
+PY_UNIONS = ["~2.7 || >=3.6.1", ">=3.7.2,<3.9 || >=3.10.4,<4.0", "^3.8 || ^4.0", ">=3.6.1", "~3.8.2", ">=2.7,<2.8 || >=3.5.3,<3.11", "~3.9 || ~3.11.2"]
+PY_GRID = ["2.6.9", "2.7.0", "2.7.18", "3.0.0"] + ["3.%d.%d" % (mi, pa) for mi in range(4, 14) for pa in (0, 1, 2, 3, 4, 5, 18)] + ["4.0.0", "4.1.2", "5.0.0"]
+def py_admits(text, v):
+    """meaning of a [tool.poetry.dependencies] python constraint, written out by hand (>=, >, <, <=, ^, ~, ',', '||') for X.Y.Z interpreters"""
+    t = tuple(int(x) for x in v.split("."))
+    def pad(p): return tuple(p) + (0,) * (3 - len(p))
+    def clause(c):
+        c = c.strip()
+        for op in (">=", "<=", ">", "<", "^", "~"):
+            if c.startswith(op):
+                p = [int(x) for x in c[len(op):].strip().split(".")]
+                lo = pad(p)
+                if op == ">=": return t >= lo
+                if op == "<=": return t <= lo
+                if op == ">": return t > lo
+                if op == "<": return t < lo
+                if op == "^":
+                    nz = next((i for i, x in enumerate(p) if x != 0), len(p) - 1)
+                    hi = pad(p[:nz] + [p[nz] + 1])
+                    return lo <= t < hi
+                if op == "~":
+                    hi = pad([p[0] + 1]) if len(p) == 1 else pad([p[0], p[1] + 1])
+                    return lo <= t < hi
+        raise ValueError(c)
+    return any(all(clause(c) for c in g.split(",")) for g in text.split("||"))
 def toml_str(s):
     return json.dumps(s, ensure_ascii=False)
 
 def gen(rng, inject=None):
     d = dict(name=rng.choice(["demo", "Demo_Pkg", "my.package", "x-y_z"]), version=rng.choice(["1.0", "0.1.0", "2!1.0rc1", "1.0.post1", "1.0.dev3"]),
              description=word(rng), keywords=[word(rng).replace(",", " ") for _ in range(rng.choice([0, 0, 1, 3]))],
-             authors=[], maintainers=[], license=None, classifiers=[], urls={}, readme=None, python=rng.choice([None, ">=3.8", ">=3.6,<4.0", "^3.9"]),
+             authors=[], maintainers=[], license=None, classifiers=[], urls={}, readme=None, python=rng.choice([None, ">=3.8", ">=3.6,<4.0", "^3.9"] + PY_UNIONS),
              extras=rng.choice([[], ["Test"], ["a_b", "docs"]]))
     def person():
         nm = rng.choice(["Jane Doe", "José Ñ", "O'Neil", "A. B. Cee"]); em = rng.choice(["j@example.com", "x.y+z@mail.example.org"])
@@ -44,7 +70,9 @@ def gen(rng, inject=None):
     d["readme_inline"] = d["readme"] is not None and rng.random() < 0.3
     # the file may be in any of the formats poetry-core tells apart by suffix; [project] may give it as a table with an explicit type;
     # [tool.poetry] may list several files (the description is their texts joined, typed after the first)
-    d["readme_file"] = rng.choice(["README.md", "README.md", "README.rst", "README.txt", "docs/README.markdown", "README"])
+    d["readme_file"] = rng.choice(["README.md", "README.md", "README.rst", "README.txt", "docs/README.markdown", "README",
+                                   # several dots: the type follows the last suffix only
+                                   "README.zh-CN.md", "README.v2.rst", "docs/index.en.markdown", "NOTES.1.0.txt", "readme.md.rst"])
     if d["readme_inline"]: d["readme_file"] = "README.md"      # the inline form declares text/markdown: same declaration in both table styles
     d["readme_table"] = rng.random() < 0.3
     d["readme2"] = rng.choice([("CHANGES.rst", "Changes\n=======\n\n* one\n"), ("NOTES.md", "## Notes\n"), ("EXTRA.txt", "plain text\n"), ("HISTORY.rst", "")]) \
@@ -87,7 +115,7 @@ def pyproject(d, style):
             L.append("readme = {text = " + toml_str(d["readme"]) + ', content-type = "text/markdown"}' if d.get("readme_inline") else
                      "readme = {file = " + toml_str(d["readme_file"]) + ", content-type = " + toml_str(content_type(d["readme_file"])) + "}" if d.get("readme_table") else
                      "readme = " + toml_str(d["readme_file"]))
-        if d["python"] and not d["python"].startswith("^"): L.append(f"requires-python = {toml_str(d['python'])}")
+        if d["python"] and not any(ch in d["python"] for ch in "^~|"): L.append(f"requires-python = {toml_str(d['python'])}")
         if d["extras"]:
             L.append("[project.optional-dependencies]")
             for e in d["extras"]: L.append(f"{toml_str(e)} = [\"requests>=2.0\"]")
@@ -201,6 +229,28 @@ def judge(d, text, style):
                 return f"extra {e!r} does not activate its dependency: Requires-Dist {rd}"
         if any(q.marker is None or q.marker.evaluate(env0) for q in reqs):
             return f"the optional dependency is required without any extra: Requires-Dist {rd}"
+    rp = msg["Requires-Python"]
+    declared = d["python"] if (style == "poetry" or (d["python"] and not any(ch in d["python"] for ch in "^~|"))) else None
+    if declared is None or declared == "*":
+        if rp is not None and declared is None and style == "project": return f"unexpected Requires-Python {rp!r}"
+    else:
+        from packaging.specifiers import SpecifierSet
+        if rp is None: return f"Requires-Python missing for python = {declared!r}"
+        try:
+            sp = SpecifierSet(rp)
+        except Exception as e:  # noqa
+            return f"Requires-Python {rp!r} is not a PEP 440 specifier set ({e})"
+        # a union cannot be written as one specifier set: poetry-core renders it at the granularity of minor series (finding D16 of C02,
+        # not counted here): what must still hold is that no admitted interpreter is rejected and that a known series (2.7, 3.0 .. 3.13)
+        # of which the declaration admits nothing is excluded as a whole.  Without '||' the two sets are equal.
+        union = "||" in declared
+        mm = lambda x: tuple(int(t) for t in x.split(".")[:2])
+        table = {(2, 7)} | {(3, i) for i in range(0, 14)}
+        adm_minors = {mm(v) for v in PY_GRID if py_admits(declared, v)}
+        for v in PY_GRID:
+            got, want = sp.contains(v, prereleases=True), py_admits(declared, v)
+            if got != want and not (union and got and (mm(v) in adm_minors or mm(v) not in table)):
+                return f"Requires-Python {rp!r} {'admits' if got else 'rejects'} interpreter {v}, the declared python = {declared!r} does not agree"
     if d["readme"] is not None:
         inline = style == "project" and d.get("readme_inline")
         want_ct = "text/markdown" if inline else content_type(d.get("readme_file", "README.md"))
